@@ -55,7 +55,7 @@ def pSource : P Source := do
   let par ← pPar
   let bs ← pOptInt "-"; let be ← pOptInt "-"
   let bounds ← match bs, be with
-    | some a, some b => pure (some (a, b))
+    | some a, some b => if a ≤ b then pure (some (a, b)) else throw "desc: bounds"
     | .none, .none => pure .none
     | _, _ => throw "bounds?"
   match (← tok) with
@@ -146,33 +146,71 @@ def nth? {α} : List α → Nat → Option α
 
 def allKinds : List Kind := [.gene, .feat, .var]
 
+/-! ### verdicts with a diagnosis (which clause of the property the answer breaks) -/
+
+def diagChild (e a : RChild) : List String :=
+  (if e.kind ≠ a.kind ∨ e.start ≠ a.start ∨ e.stop ≠ a.stop then ["child-span"] else [])
+  ++ (if e.idents ≠ a.idents then ["identifiers"] else [])
+  ++ (if e.gcs.map (·.guid) ≠ a.gcs.map (·.guid) then ["grandchildren"]
+      else ((e.gcs.zip a.gcs).map fun (x, y) =>
+        (if x.start ≠ y.start ∨ x.stop ≠ y.stop then ["coords"] else [])
+        ++ (if x.same ≠ y.same then ["to_dict"] else [])
+        ++ (if x.mseq ≠ y.mseq then [if e.kind = .var then "mseq-variant" else "mseq"] else [])).flatten)
+
+/-- both arguments normalised -/
+def diagResult (e a : Result) : List String :=
+  (if e.children.map (·.guid) ≠ a.children.map (·.guid) then ["members"]
+   else ((e.children.zip a.children).map fun (x, y) => diagChild x y).flatten)
+  ++ (if e.start ≠ a.start ∨ e.stop ≠ a.stop then ["bounds"] else [])
+  ++ (if e.par ≠ a.par then ["parent"] else [])
+
+def tags (l : List String) : String := " ".intercalate l.eraseDups
+
+def explain (x : Expect) (a : Ans) : String :=
+  if meets x a then "pass"
+  else match x, a with
+    | .reject, .ok _ => "fail not-rejected"
+    | .reject, _ => "fail raised-instead-of-rejecting"
+    | .result _, .rejected => "fail rejected"
+    | .result _, .raised => "fail raised"
+    | .result r, .ok b => "fail " ++ tags (diagResult r.norm b.norm)
+    | _, .raised => "fail raised"
+    | _, _ => "fail members"
+
+def explainChild (src : Source) (c : Child) (ids : List Nat) (a : CAns) : String :=
+  if okChildQueryByGuids src c ids a then "pass"
+  else match reduceChild ids c, a with
+    | _, .raised => "fail raised"
+    | some c', .some r => "fail " ++ tags (diagChild (expectChild src.par.toRPar c').norm r.norm)
+    | _, _ => "fail members"
+
 def ops : List (String × Op) := [
   ("qpos", do
       let src ← pSource
       let s ← pOptInt "N"; let e ← pOptInt "N"
       let co ← pBool; let cw ← pBool; let ex ← pBool
       pArrow; let a ← pAns
-      pure (verdict (okQueryByPosition src ⟨s, e, co, cw, ex⟩ a))),
+      pure (explain (expectQueryByPosition src ⟨s, e, co, cw, ex⟩) a)),
   ("qguid", do
       let src ← pSource; let ids ← pNatList; pArrow; let a ← pAns
       -- id lists are sets in the property's quantifier; a repeated id is outside it
-      if ¬ noDup ids then pure "n/a" else pure (verdict (okQueryByGuids src ids a))),
+      if ¬ noDup ids then pure "n/a" else pure (explain (expectIdResult src (keptByGuids src ids)) a)),
   ("qig", do
       let src ← pSource; let ids ← pNatList; pArrow; let a ← pAns
-      if ¬ noDup ids then pure "n/a" else pure (verdict (okQueryByIntervalGuids src allKinds ids a))),
+      if ¬ noDup ids then pure "n/a" else pure (explain (expectIdResult src (keptByIntervalGuids src allKinds ids)) a)),
   ("qtg", do
       let src ← pSource; let ids ← pNatList; pArrow; let a ← pAns
-      if ¬ noDup ids then pure "n/a" else pure (verdict (okQueryByIntervalGuids src [.gene] ids a))),
+      if ¬ noDup ids then pure "n/a" else pure (explain (expectIdResult src (keptByIntervalGuids src [.gene] ids)) a)),
   ("qfg", do
       let src ← pSource; let ids ← pNatList; pArrow; let a ← pAns
-      if ¬ noDup ids then pure "n/a" else pure (verdict (okQueryByIntervalGuids src [.feat] ids a))),
+      if ¬ noDup ids then pure "n/a" else pure (explain (expectIdResult src (keptByIntervalGuids src [.feat] ids)) a)),
   ("qfid", do
       let src ← pSource; let ids ← pIdentList; pArrow; let a ← pAns
-      pure (verdict (okQueryByIdentifiers src ids a))),
+      pure (explain (expectIdResult src (keptByIdentifiers src ids)) a)),
   ("cqg", do
       let src ← pSource; let idx ← pNat; let ids ← pNatList; pArrow; let a ← pCAns
       match nth? src.children idx with
-      | some c => if ¬ noDup ids then pure "n/a" else pure (verdict (okChildQueryByGuids src c ids a))
+      | some c => if ¬ noDup ids then pure "n/a" else pure (explainChild src c ids a)
       | none => throw "child index")
 ]
 end BioCantor.Driver.SpecQuery
